@@ -7,6 +7,8 @@ Requests (whitespace-separated tokens; values/types/targets have a space-free sy
 * `sdef <name> <field>:<ty> …`         struct definition                    → `ok`
 * `fdef <name> <nkeys> <f>:<ty> …`     fact definition (keys first)         → `ok`
 * `glob <name> <value>`                global                               → `ok`
+* `cmap <hex text> <ip>:<start>:<end> …` code map (source text, sorted instruction → span table) → `ok`
+* `loc`                                `RunState::source_location()` at the current pc → `loc=<line>:<col>` | `loc=-`
 * `label <name> <LabelType> <addr>`    entry in the label table             → `ok`
 * `adef <name> <param>:<ty> …`         action definition                    → `ok`
 * `cdef <name> <field>:<ty> …`         command definition                   → `ok`
@@ -396,6 +398,20 @@ def step (d : D) (toks : List String) : D × String :=
       | some e, some ios =>
         showRun d (call d.m (fun k => ios.getD k []) ios.length e d.s)
       | _, _ => (d, "bad-op")
+  | "cmap" :: text :: entries =>
+    let entry? (e : String) : Option (Nat × Nat × Nat) :=
+      match e.splitOn ":" with
+      | [i, a, b] => do pure (← nat? i, ← nat? a, ← nat? b)
+      | _ => none
+    match Driver.hex? text, entries.mapM entry? with
+    | some bytes, some es =>
+      ({ d with m := { d.m with codemap := some ⟨bytes.map (·.toNat), es⟩ } }, "ok")
+    | _, _ => (d, "bad-op")
+  | ["loc"] =>
+    (d, match locate d.m d.s.pc with
+      | none => "panic"
+      | some none => "loc=-"
+      | some (some (l, c)) => s!"loc={l}:{c}")
   | ["glob", name, v] => match nat? name, value? v with
     | some n, some v => ({ d with m := { d.m with globals := d.m.globals ++ [(n, v)] } }, "ok")
     | _, _ => (d, "bad-op")
